@@ -142,9 +142,8 @@ def read_raw(uri, want_cols=None):
             cols.append([c, dt.itemsize * 8 if kind == "i" else f"{dt.kind}{dt.itemsize * 8}"])
             colv.append([int(v) if kind in "iu" else float(v) for v in pg[c][:].tolist()])
         a = g.attrs
-        # the pixel table is the first nnz rows (create() leaves the initial allocation of
-        # min(5*n_bins, max) zero rows in place when the pixel iterator yields no chunk at all)
-        nrows = min(len(b1), int(a["nnz"]))
+        # every row on disk is read (after fix D21 an empty pixel stream leaves no preallocated rows)
+        nrows = len(b1)
         px = [[int(b1[i]), int(b2[i]), [cv[i] for cv in colv]] for i in range(nrows)]
         off = [int(v) for v in g["indexes/bin1_offset"][:].tolist()]
         return {"cols": cols, "px": px, "off": off, "sum": int(a["sum"]), "nnz": int(a["nnz"]),
